@@ -82,4 +82,4 @@ def run(ctx):
             ev.count("excluded_by_construction", case["excluded_by_construction"])
         return f
 
-    ctx.campaign("main", gen.programs(cfg), oracle, max_examples=ctx.n(400, 32000))
+    ctx.campaign("main", gen.programs(cfg), oracle, max_examples=ctx.n(600, 32000))
